@@ -95,6 +95,17 @@ def spec_genes(tree, table, Q, m, p):
     return cur
 
 
+def list_is_rewritten(tree, table, Q, m, k, cons):
+    """does the ancestor fallback replace the list of key k by Q ∩ (...)?"""
+    if k is None or k not in cons:
+        return False
+    if len(set(table.get(k, [])) & set(Q)) >= m:
+        return False
+    if any(a in table for a in tree_ancestors(tree, k)):
+        return True
+    return None in table
+
+
 def expectation(case):
     """
     What the property demands of the outcome.  Returns dict:
@@ -117,6 +128,18 @@ def expectation(case):
         listed |= set(v)
     if any(g in set(Q) and g not in set(R) for g in listed):
         must_fail.append('marker-unknown-to-reference')
+    # a marker unknown to the reference AND missing from the query: the list
+    # that holds it reaches the reference check only if the fallback did not
+    # rewrite it (a rewritten list is Q ∩ (...), the gene is gone).  Which
+    # lists are rewritten is computed here from the raw dicts: a consulted
+    # non-root parent with fewer than m own markers in the query and at least
+    # one ancestor (or, failing that, the root) present in the table.  The
+    # error is demanded only for the lists the unchanged semantics keep.
+    for k, v in table.items():
+        if not list_is_rewritten(tree, table, Q, m, k, cons) and \
+                any(g not in set(R) and g not in set(Q) for g in v):
+            must_fail.append('marker-unknown-to-reference/not-in-query')
+            break
     if m >= 1 and any(len(s) == 0 for s in spec.values()):
         must_fail.append('consulted-parent-without-markers')
     if cons and all(len(s) == 0 for s in spec.values()):
@@ -124,9 +147,7 @@ def expectation(case):
         # can be used anywhere
         must_fail.append('query-shares-no-marker' if m >= 1 else
                          'query-shares-no-marker/min_markers-0')
-    # the run may legitimately fail for a listed gene outside R even when the
-    # gene is not in the query (the code checks every list it keeps)
-    may_fail = any(g not in set(R) for g in listed)
+    may_fail = False
     if m == 0 and any(len(s) == 0 for s in spec.values()):
         # min_markers = 0: "fewer than the minimum" never holds, so the
         # property does not demand an error for ONE consulted parent left
